@@ -20,7 +20,7 @@ timeout 600 /venv/bin/python _seed/demo$N.py >/tmp/vs/$P-$N.patched.log 2>&1; RC
 timeout 1200 /venv/bin/python -m pytest -q -p no:cacheprovider --timeout=900 -rf 2>&1 | grep -E "^FAILED|passed|failed" | sed 's/ - .*//' | sort > /tmp/vs/$P-$N.tests.log
 TESTS_SAME=no
 if diff -q <(grep ^FAILED /tmp/vs/baseline.tests.log) <(grep ^FAILED /tmp/vs/$P-$N.tests.log) >/dev/null; then TESTS_SAME=yes; fi
-SUMMARY=$(grep -E "passed" /tmp/vs/$P-$N.tests.log | sed 's/ in .*//')
+SUMMARY=$(grep -E "[0-9]+ passed" /tmp/vs/$P-$N.tests.log | sed 's/ in .*//')
 echo "$P-$N: demo_clean=$RC_CLEAN demo_patched=$RC_PATCHED tests_same=$TESTS_SAME [$SUMMARY]"
 if [ "$RC_CLEAN" = 0 ] && [ "$RC_PATCHED" != 0 ] && [ "$TESTS_SAME" = yes ]; then
   D=/verif/seeded/$P-$N; mkdir -p $D
